@@ -20,7 +20,7 @@ TRANSLATE = True
 TRANSLATE_ALGO = ["AlgoTraverse", "AlgoNode", "AlgoBranches", "AlgoSubtree", "AlgoLMeasure", "AlgoSholl", "AlgoFeatFront", "AlgoBranchTree", "AlgoNodeFeat"]
 DRIVER_FILES = ["SwcVerif/Model/AlgoRunLMeasure.lean", "SwcVerif/Model/PyMore.lean", "SwcVerif/Model/AlgoRunSholl.lean", "SwcVerif/Model/PySholl.lean",
                 "SwcVerif/Model/PyResample.lean", "SwcVerif/Model/AlgoRunNodeFeat.lean", "SwcVerif/Model/PyNodeFeat.lean"]
-LEAN_MODS = ["SwcVerif.Props.C10", "SwcVerif.Proofs.Represent", "SwcVerif.Props.C10Gen", "SwcVerif.Props.C10Sholl"]
+LEAN_MODS = ["SwcVerif.Props.C10", "SwcVerif.Proofs.Represent", "SwcVerif.Props.C10Gen", "SwcVerif.Props.C10Sholl", "SwcVerif.Props.C10NodeFeat"]
 THEOREMS = [
     "C10.length_eq_sum_edges", "C10.chainLength_eq", "C10.length_eq_sum_branches", "C10.branches_eq", "C10.counts", "C10.path_distance_eq_sum",
     "C10.branch_order_eq_furcations_on_path", "C10.terminal_degree_eq_tips_below", "C10.sholl_eq_straddle_count", "C10.partition_asymmetry_def",
@@ -37,6 +37,11 @@ THEOREMS = [
     "RefineSholl.get_rs_self_int_eq", "RefineSholl.population_refines", "RefineSholl.populations_refines",
     "C10.generated_sholl_init", "C10.generated_sholl_init_single", "C10.generated_sholl_intersect", "C10.generated_sholl_get",
     "C10.generated_sholl_get_steps", "C10.generated_population_rows", "C10.generated_populations_blocks", "C10.generated_populations_empty",
+    # refinement (T22): the definitions generated from features.py / path.py / tree.py on this run (Gen/AlgoNodeFeat.lean)
+    "RefineNf.seg_length", "RefineNf.length_loop", "RefineNf.tree_length_refines", "RefineNf.tortuosity_refines", "RefineNf.straight_refines",
+    "RefineNf.radial_refines", "RefineNf.node_count_refines",
+    "C10.generated_tree_length", "C10.generated_tortuosity", "C10.generated_straight_line_distance", "C10.generated_radial_distance",
+    "C10.generated_node_count",
 ]
 TRUSTED = ["hand-written models Model/Features.lean (lengths as sums of edge lengths, counts, orders, Sholl straddle rule), tied by the c10.features correspondence "
            "(exact on lattice trees whose edges are axis-aligned with integer length); partition_asymmetry is regenerated from lmeasure.py (Gen/LMeasureArith.lean)"]
